@@ -131,6 +131,27 @@ def solver_params(draw, n, m, iters, cheap=True):
 
 
 @st.composite
+def start_points(draw, recipe):
+    """A start point inside the box (SolverParameters.startPoint), or None in most cases."""
+    if draw(st.integers(0, 4)) > 0:
+        return None
+    return [a + draw(unit01) * (b - a) for a, b in zip(recipe["lower"], recipe["upper"])]
+
+
+@st.composite
+def resolution_case(draw):
+    """A run that is pushed to the resolution of the curve coordinate: eps far below the spacing of doubles, a
+    kinked 1-D objective (or a 2-D one on a coarse evolvent), enough budget.  The method then refuses the
+    degenerate interval ('x is outside of interval'); Solve swallows that and returns."""
+    n = draw(st.sampled_from([1, 1, 1, 2]))
+    recipe = draw(problem_recipe(dims=(n,), families=("cones", "absum", "pwl1", "linear"),
+                                 densities=(10,) if n == 1 else (2, 3, 4)))
+    params = {"r": draw(r_values), "eps": float(10.0 ** -draw(st.integers(17, 300))),
+              "itersLimit": draw(st.sampled_from([120, 200, 400]))}
+    return recipe, params
+
+
+@st.composite
 def compositions(draw, total, max_parts=6):
     """A composition of `total` into positive batch sizes."""
     parts = []
